@@ -5,24 +5,46 @@ Import ListNotations.
 Open Scope string_scope.
 Definition one (n : string) := filter (fun fd => String.eqb (fn_name fd) n) eon_program.
 Eval vm_compute in (report eon_program (one "fast_nonMarkov_SIR")).
+Eval vm_compute in (dead_report eon_program (one "fast_nonMarkov_SIR")).
 Eval vm_compute in (report eon_program (one "SIR_pair_based")).
+Eval vm_compute in (dead_report eon_program (one "SIR_pair_based")).
 Eval vm_compute in (report eon_program (one "SIS_effective_degree_from_graph")).
+Eval vm_compute in (dead_report eon_program (one "SIS_effective_degree_from_graph")).
 Eval vm_compute in (report eon_program (one "SIR_compact_effective_degree_from_graph")).
+Eval vm_compute in (dead_report eon_program (one "SIR_compact_effective_degree_from_graph")).
 Eval vm_compute in (report eon_program (one "_dEBCM_pref_mix_")).
+Eval vm_compute in (dead_report eon_program (one "_dEBCM_pref_mix_")).
 Eval vm_compute in (report eon_program (one "_process_trans_SIS_Markov")).
+Eval vm_compute in (dead_report eon_program (one "_process_trans_SIS_Markov")).
 Eval vm_compute in (report eon_program (one "_get_Nk_and_IC_as_arrays_")).
+Eval vm_compute in (dead_report eon_program (one "_get_Nk_and_IC_as_arrays_")).
 Eval vm_compute in (report eon_program (one "_dSIS_compact_pairwise_")).
+Eval vm_compute in (dead_report eon_program (one "_dSIS_compact_pairwise_")).
 Eval vm_compute in (report eon_program (one "Attack_rate_discrete")).
+Eval vm_compute in (dead_report eon_program (one "Attack_rate_discrete")).
 Eval vm_compute in (report eon_program (one "SIR_compact_pairwise")).
+Eval vm_compute in (dead_report eon_program (one "SIR_compact_pairwise")).
 Eval vm_compute in (report eon_program (one "_dSIS_homogeneous_pairwise_")).
+Eval vm_compute in (dead_report eon_program (one "_dSIS_homogeneous_pairwise_")).
 Eval vm_compute in (report eon_program (one "SIS_super_compact_pairwise")).
+Eval vm_compute in (dead_report eon_program (one "SIS_super_compact_pairwise")).
 Eval vm_compute in (report eon_program (one "_dEBCM_")).
+Eval vm_compute in (dead_report eon_program (one "_dEBCM_")).
 Eval vm_compute in (report eon_program (one "SIR_homogeneous_meanfield")).
+Eval vm_compute in (dead_report eon_program (one "SIR_homogeneous_meanfield")).
 Eval vm_compute in (report eon_program (one "_dSIR_homogeneous_meanfield_")).
+Eval vm_compute in (dead_report eon_program (one "_dSIR_homogeneous_meanfield_")).
 Eval vm_compute in (report eon_program (one "estimate_R0")).
+Eval vm_compute in (dead_report eon_program (one "estimate_R0")).
 Eval vm_compute in (report eon_program (one "nonMarkov_directed_percolate_network")).
+Eval vm_compute in (dead_report eon_program (one "nonMarkov_directed_percolate_network")).
 Eval vm_compute in (report eon_program (one "_in_component_")).
+Eval vm_compute in (dead_report eon_program (one "_in_component_")).
 Eval vm_compute in (report eon_program (one "EBCM_pref_mix_from_graph")).
+Eval vm_compute in (dead_report eon_program (one "EBCM_pref_mix_from_graph")).
 Eval vm_compute in (report eon_program (one "_truncated_exponential_")).
+Eval vm_compute in (dead_report eon_program (one "_truncated_exponential_")).
 Eval vm_compute in (report eon_program (one "Gillespie_Arbitrary")).
+Eval vm_compute in (dead_report eon_program (one "Gillespie_Arbitrary")).
 Eval vm_compute in (report eon_program (one "__citation__")).
+Eval vm_compute in (dead_report eon_program (one "__citation__")).
